@@ -100,6 +100,8 @@ def run_case(case, R):
         with instr.options(**s.copts), instr.capture() as ev, instr.fp_guard():
             model = scen.fit(s)
     except Exception as e:
+        if not instr.is_library_exception(e):
+            raise
         R.count(f'fit raised {type(e).__name__}: {str(e)[:80]}')
         R.undecided('C02.monotone', 'fit raised')
         return
@@ -112,6 +114,8 @@ def run_case(case, R):
             try:
                 Ls.append(loglik(s, e['model']))
             except Exception as ex:
+                if not instr.is_library_exception(ex):
+                    raise
                 Ls.append(float('nan'))
             guards.append(guard_state(s, e['model']))
     absL = max(1.0, abs(Ls[0]))
@@ -164,6 +168,8 @@ def run_case(case, R):
                     m = scen.fit(s, iterations=1) if m is None else models.fit('cacgmm', s.data, init=m, iterations=1, **s.opts)
                     got = float(m.log_likelihood(y))
                 except Exception as e:
+                    if not instr.is_library_exception(e):
+                        raise
                     R.count(f'log_likelihood chain raised {type(e).__name__}')
                     break
                 s1 = scen.Scenario(); s1.__dict__.update(s.__dict__); s1.saliency = None
